@@ -43,6 +43,28 @@ CLAIMS = {
          'backquote, backslash or control byte, for ALL byte strings), C17_url_scheme + C17_normalize_prefix + C17_href_scheme (every link starts with one of five fixed scheme+host prefixes whatever the dump contains), C17_class_safe, C17_src_url_path_confined, C17_attrs_total; '
          'correspondence: every href/class of the content region equals the model value; oracle: tokenised structure equals that of a benign twin. Partial: the composition through html/template and the HTML tokenizer is modelled hole by hole, not as a whole-document theorem', 'section 6 C17',
          'Coq proofs about the hand-built trusted values and the escapers + tokenised differential oracle (hostile snapshot vs benign twin)'),
+ 'C01': ('proof', 'C01_fidelity: for every well-formed variant and dump (wf_dump: the boolean side conditions real runtime output meets) and every stall-free delivery schedule, scanning the text written by the printer model (Spec/Printer.v, '
+         'following runtime/traceback.go and objabi.PathToPrefix) yields exactly snapshot_of d, forwards nothing, hands back nothing, EOF; with the line-level round trips (header, func, file, created-by, arguments up to depth 5, symbols with escapes), '
+         'C01_isptr_value_only, C01_first_unique; correspondence three-way: implementation = model = the snapshot the AST denotes, on dumps printed by an independent Go printer', 'section 6 C01',
+         'Coq round-trip proof parser(printer(d)) = d against a printer specification + three-way differential check'),
+ 'C07': ('proof', 'C07_scan_is_fold (ScanSnapshot = a fold of scan over the lines, for every stall-free schedule), C07_ends_at_first_non_continuing, C07_progress(_strong), C07_seq_total / C07_seq_fuel_enough (the documented resume loop terminates), '
+         'C07_seq_conservation (no stream position scanned twice or skipped), C07_dump_alone_equals_in_stream and C07_resume (k dumps separated by junk: exactly one snapshot per dump, equal to scanning it alone; all other bytes forwarded in order), C07_start_anywhere; '
+         'correspondence on the resume protocol with MultiReader(suffix, rest). The reference line-kind automaton of DESIGN section 6 was not built: delimitation is stated directly on scan (the delimits hypothesis)', 'section 6 C07',
+         'Coq proof of the resume protocol over the fold characterisation + differential check of the iterated scan'),
+ 'C08': ('proof', 'C08_fidelity: for every well-formed race report (>= 1 creation section), arbitrary text before and after, any stall-free schedule and terminal error: the snapshot is race_snapshot_of r, the text before is forwarded, the text after handed back, error nil, final state done; '
+         'C08_unknown_creator(_report) (a creation section for a goroutine of no operation is an error and changes nothing), header matcher round trips; C08_no_creation_section documents that a report without any creation section ends with an error (outside the statement)', 'section 6 C08',
+         'Coq round-trip proof against a model of the tsan Go report printer + differential check'),
+ 'C10': ('proof', 'C10_total, C10_lines_prefix, C10_scan_step_frame / C10_prefix_goroutines (a cut changes at most the goroutine being read), C10_error (a reader failure is never replaced by a scan error; exact rule), C10_fwd_prefix (forwarded bytes of the cut stream are a prefix, '
+         'except the unterminated fragment while looking: known finding K2, C10_K2_refuted), C10_all_cuts (every cut of one stream, by computation); correspondence at sampled/all byte offsets x 3 failure signals', 'section 6 C10',
+         'Coq prefix-monotonicity proof over the fold characterisation + per-offset differential check'),
+ 'C14': ('proof', 'tagged ownership model (Model/Alias.v): C14_erasure (the tagged Aggregate is the functional one plus bookkeeping, for any spare capacity), C14_writes_fresh(_ops) (every write of Aggregate / Args.String / any operation sequence targets a freshly allocated array), '
+         'C14_snapshot_unchanged, C14_reaggregate_same, C14_string_uncapped_refuted (the pre-fix Args.String wrote shared spare capacity), C14_interleave_safe / C14_concurrent_ops_safe (threads writing only their own fresh cells: every interleaving leaves the shared cells untouched and gives each thread its sequential result); '
+         'correspondence: alias graph observed with unsafe.SliceData = predicted. Partial: the Go memory model and real scheduling are not modelled (race detector run in the thorough tier only); nested Fields slices are not tagged', 'section 6 C14',
+         'Coq proof over a provenance-tagged model of slices + alias-graph correspondence + immutability oracle'),
+ 'C18': ('proof', '37 theorems: C18_update_shape (exact case analysis of updateLocations for arbitrary root tables), C18_local_ends_with_rel, C18_remote_root_prefix, C18_class_table, C18_testmain_stays_stdlib, C18_longest_root_wins, C18_update_deterministic, C18_roots_backed / C18_roots_detected_from_disk '
+         '(every detected root is backed by a file of the disk oracle), C18_guess_preserves, C18_find_module_*; correspondence on materialised layouts; oracle = the generating layout. A genuine defect found by the oracle (nested module never discovered) was fixed in /repo (02e5c66). '
+         'Partial: ambiguous layouts (one relative path under two roots) are outside the statement; the disk is an oracle (no symlinks, no "..")', 'section 6 C18',
+         'Coq structural theorems for every disk + layout-generating differential oracle'),
 }
 
 def main():
